@@ -395,6 +395,22 @@ func c17Block(c *Ctx, p *Prog, pk *packages.Package, rule string, m *mirrorer, f
 				}
 			}
 		}
+		// conditions that mention both colours must be unchanged by swapping them
+		var cond ast.Expr
+		switch x := s.(type) {
+		case *ast.IfStmt:
+			cond = x.Cond
+		case *ast.ForStmt:
+			cond = nil // colour loops `color <= Black` are R3's domain
+		}
+		if cond != nil && m.colourIndexed(cond) {
+			if w, b := m.mentions(cond); w && b {
+				ord++
+				self++
+				mir, str := m.render(cond, true), m.render(cond, false)
+				c.Check(mir == str, rule, fmt.Sprintf("%s#both-colours@%d", fn, ord), cond.Pos(), "a condition mentioning both colours is unchanged by swapping them (mirror: %s ; as written: %s)", clip(mir), clip(str))
+			}
+		}
 		// recurse into nested blocks
 		ast.Inspect(s, func(n ast.Node) bool {
 			if b, ok := n.(*ast.BlockStmt); ok && b != blk {
@@ -697,6 +713,9 @@ func init() {
 		Mutant{Name: "C17.R2-king-attack-eg-white-twice", Prop: "C17", File: "eval/eval.go",
 			Old: "\tsp.eg[Black] += ka.sigmoidal(1, Black)\n", New: "\tsp.eg[Black] += ka.sigmoidal(1, White)\n",
 			Expect: "C17.R2/eval.(*scorePair).addKingAttacks#"},
+		Mutant{Name: "C17.R2-lazy-exit-one-sided", Prop: "C17", File: "eval/eval.go",
+			Old: "\tsp.addTempo(b, c)\n\tsp.addBishopPair(b, c)\n", New: "\tsp.addTempo(b, c)\n\tsp.addBishopPair(b, c)\n\n\tif sp.eg[White] > sp.eg[Black]+2500 || sp.eg[Black] > sp.eg[Black]+2500 {\n\t\treturn sp.taperedScore(b)\n\t}\n",
+			Expect: "C17.R2/eval.Eval#both-colours"},
 		Mutant{Name: "C17.R3-psqt-flipped-for-both", Prop: "C17", File: "eval/eval.go", Quick: true,
 			Old: "\tif color == White {\n\t\tsq ^= 56 // upside down\n\t}\n", New: "\tsq ^= 56 // upside down\n",
 			Expect: "C17.R3/eval.(*scorePair).addPSqT#unguarded-flip"},
